@@ -15,7 +15,8 @@ R2 every concrete `run()` of the Step class table: every path that reaches the n
    helper method, inlining bound 3); the terminate call is reachable at all; handlers for
    `CancelledError` / `Exception` in `run()` reach terminate(CANCELLED) / terminate(FAILED) and cannot
    finish without it.
-R3 loop exits in `run()`: every `while True` has an exit (`break`/`return`) that is reached from the
+R3 loop exits in `run()` (and in the methods run() awaits through `self.m(...)`, resolved call, bound 2: a loop moved
+   wholesale into a cooperating method is still a loop of run(); the finding names the method): every `while True` has an exit (`break`/`return`) that is reached from the
    termination branch of a termination-token test in the same iteration; every task-set loop
    (`while <tasks>` around `asyncio.wait`) has a termination-token test, re-arms the consumed port, and a
    re-arm (new `port.get`/`_get_inputs` task, also one level inside a helper) reachable from the termination
@@ -28,7 +29,11 @@ R4 executor: every step runs as a task wrapped by `_handle_exception`; its gener
    `close()`; `close()` (when still open, P10 over `_closed`/`_closing`) terminates every step that is
    `not step.terminated` (whole `workflow.steps`), awaits the terminations and then sets `_closed`;
    `closed()` reports that flag; `run()` waits for the step tasks (gather) or for the closed state, then
-   checks *every* step for FAILED/CANCELLED (P10) and raises before any normal return, its catch-all handler
+   checks *every* step for FAILED/CANCELLED (P10) and raises on every path of that edge before any normal return (a loop
+   over the whole step map with a test, or the same decision as `any(<test> for step in <all steps>)` / `not all(...)` /
+   a non-empty `[step ... if <test>]`, also held in a local as long as no suspension point separates the evaluation from
+   the test; or either form in a method run() calls -- resolved `self.m()`, bound 1 -- that cannot finish normally
+   without passing it), its catch-all handler
    closes and re-raises; `_wait_outputs` cancels the pending output tasks (the `asyncio.wait` remainder) on a
    FAILED/CANCELLED termination token and closes when the last output port terminated; `_cancel` cancels
    every given task and marks the executor closed.  Spelling-agnostic: the Status tests (here and in R5) are decomposed into
@@ -36,7 +41,9 @@ R4 executor: every step runs as a task wrapped by `_handle_exception`; its gener
    branches under `not` / `not in`, guard clauses, `and`-joined with the termination test); any further conjunct on that
    edge, or no such edge, is a violation.  `closed()` may return the flag through temporaries (reaching definitions, bound
    3) as long as no suspension point lies between the copy and the return and every path returns.
-R5 `ExecuteStep.run`: both places that record a status (termination branch, job-result branch) cancel
+R5 `ExecuteStep.run` (its task loop, in run() itself or moved wholesale into a method run() awaits -- followed through
+   the resolved `self.m(...)` call, bound 2; the recorded list is then the one the method returns into the list run()
+   hands to `_reduce_statuses`): both places that record a status (termination branch, job-result branch) cancel
    *all* unfinished tasks when that status is FAILED or CANCELLED (P10 + P11); `ExecuteStep._run_job`
    returns its status variable and every exception handler leaves FAILED/CANCELLED in it (reaching
    definitions over the CFG), so a failed job is never reported as a success.
@@ -947,6 +954,7 @@ def r4(ctx):
     # (d) run raises on FAILED/CANCELLED: a loop over every step with a test, `any(...)` / `not all(...)` over every step,
     # or either of them in a method run() calls (resolved `self.m()`, bound 1) that cannot finish normally past it
     checks = _failing_checks(p, run, loops)
+    through = ""
     if not checks:
         for n in g.nodes.values():
             for c in node_calls(g, n):
@@ -969,6 +977,7 @@ def r4(ctx):
                                and (not h.is_async or _awaited(c)))
                 if per and len(per) == len(hs_):
                     checks.append((n, [n.id], all(per)))
+                    through = f" (status check followed into {', '.join(h.qualname for h in hs_)}, called from run())"
     # the statuses are inspected only after the step tasks finished / the executor was closed
     waits = [n.id for n in g.nodes.values() if any(
         isinstance(x, ast.Await) and isinstance(x.value, ast.Call) and (
@@ -985,7 +994,7 @@ def r4(ctx):
     dom = bool(checks) and all(g.dominates([i], r) for _, ids, _ in checks for i in ids for r in rets)
     ctx.ob("R4", "executor.run checks every step for FAILED/CANCELLED and raises before returning", bool(checks) and all(o for *_, o in checks) and dom,
            func=run, node=(checks[0][0].ast if checks else run.node), instance="executor.run:status-check",
-           message="executor.run can return normally although a step is FAILED or CANCELLED")
+           message="executor.run can return normally although a step is FAILED or CANCELLED" + through)
     hs = [h for tr in run.body_nodes() if isinstance(tr, ast.Try) for h in tr.handlers if _handler_kinds(h) & {"Exception", "BaseException"}]
     rc = {n.id for n in g.nodes.values() if any(self_call(c, "close") and _awaited(c) for c in n.calls())}
     ok = bool(hs) and bool(rc)
